@@ -94,6 +94,29 @@ def c13_4(ctx):
         ctx.check(ok, "skip-only-coinbase", ctx.where(f, e.node), "validate_unspents skips an input under `%s`; only the null outpoint may be skipped, every other input's amount and script must be compared" % (ops or "<unconditional>"),
                   what="skip:%s" % ops, sample={"skip_condition": ops})
     ctx.ok("skip-conditions-analysed")
+    # every input is compared: the mismatch errors are raised inside a loop that runs over the inputs themselves, not over a
+    # collection keyed by something several inputs share (a dict or set keyed by the source transaction keeps one input each)
+    per_input = ("enumerate(self.txs_in)", "self.txs_in", "zip(self.txs_in, self.unspents)", "range(len(self.txs_in))", "enumerate(zip(self.txs_in, self.unspents))", "range(len(self.unspents))")
+    mism = [e for e in w.effects if e.kind == "call" and norm(e.call.func).endswith("BadSpendableError")]
+    if not mism:
+        raise Undecided("validate_unspents raises no BadSpendableError itself; this rule does not read where the comparison went")
+    for e in mism:
+        if not e.loops:
+            ctx.undecided("every-input-compared", ctx.where(f, e.node), "a BadSpendableError is raised outside any loop; this rule reads comparisons made per input only")
+            continue
+        lp = e.loops[-1]
+        it_ = lp.iter
+        t = norm(it_) if it_ is not None else ""
+        keyed = isinstance(it_, (ast.Dict, ast.DictComp, ast.Set, ast.SetComp)) or t.startswith(("set(", "dict(", "frozenset(")) or (
+            isinstance(it_, ast.Call) and isinstance(it_.func, ast.Attribute) and it_.func.attr in ("items", "keys", "values") and (
+                isinstance(it_.func.value, (ast.Dict, ast.DictComp)) or norm(it_.func.value).startswith(("dict(", "{"))))
+        if t in per_input:
+            ctx.ok("every-input-compared", sample={"loop": t})
+        elif keyed and "previous_hash" in t:
+            ctx.bad("every-input-compared", ctx.where(f, e.node), "validate_unspents compares inside a loop over `%s`, a collection keyed by the source transaction: of several inputs spending from one transaction only one is compared with its authenticated output"
+                    % t[:100], sample={"loop": t[:140]})
+        else:
+            ctx.undecided("every-input-compared", ctx.where(f, e.node), "the comparison runs in a loop over `%s`; this rule reads loops over the inputs themselves" % t[:80])
 
 
 OBLIGATIONS = [
